@@ -150,7 +150,7 @@ class RealModel:
                 cache[node] = ['?']
             else:
                 cache[node] = W.js_val(v)
-        edges = sorted({(u.address.coordinate, v.address.coordinate)
+        edges = sorted({(W.node_of(u.address.address), W.node_of(v.address.address))
                         for u, v in m.dep_graph.edges()})
         return dict(built=sorted(built), cache=cache,
                     edges=[list(e) for e in edges],
